@@ -93,6 +93,16 @@ func c13Scenarios() []goxScenario {
 	sc = append(sc,
 		goxScenario{Name: "load-csv", Files: map[string]string{"t.csv": big}, SQL: "SELECT COUNT(*) FROM t", CPU: 2},
 		goxScenario{Name: "load-jsonl", Files: map[string]string{"j.jsonl": "{\"a\":1}\n{\"a\":2}\n{\"a\":3}\n{\"a\":4}\n"}, SQL: "SELECT COUNT(*) FROM j", CPU: 2},
+		// loads that fail after some good records: the reading and the converting goroutine both see the failure
+		goxScenario{Name: "load-csv-uneven-record", Files: map[string]string{"bad.csv": csvTable("a,g,b", 12, func(i int) string {
+			if i == 7 {
+				return "8,k,1,extra"
+			}
+			return fmt.Sprintf("%d,k%d,%d", i+1, i%3, i)
+		})}, SQL: "SELECT COUNT(*) FROM bad", CPU: 2},
+		goxScenario{Name: "load-csv-unterminated-quote", Files: map[string]string{"bad.csv": "a,b\n1,x\n2,y\n3,\"z\n4,w\n"}, SQL: "SELECT COUNT(*) FROM bad", CPU: 2},
+		goxScenario{Name: "load-ltsv-and-fixed", Files: map[string]string{"l.ltsv": "a:1\tb:2\na:3\tb:4\nbroken\na:5\n", "f.txt": "a  b\n1  x\n2  y\n3  z\n"}, SQL: "SELECT COUNT(*) FROM l; SELECT COUNT(*) FROM FIXED('SPACES', `f.txt`);", CPU: 2},
+		goxScenario{Name: "load-jsonl-bad-line", Files: map[string]string{"j.jsonl": "{\"a\":1}\n{\"a\":2}\n{\"a\":\n{\"a\":4}\n"}, SQL: "SELECT COUNT(*) FROM j", CPU: 2},
 		goxScenario{Name: "correlated-subquery", Files: map[string]string{"t.csv": big}, SQL: "SELECT a FROM t WHERE EXISTS (SELECT 1 FROM t z WHERE z.g = t.g AND z.a < t.a)", CPU: 3},
 		goxScenario{Name: "error-in-two-records", Files: map[string]string{"t.csv": big}, SQL: "SELECT a, 10 / (b - 3) FROM t", CPU: 3},
 		// built-in functions that keep process-wide state (random source, compiled-pattern, JSON-query and time-zone caches), one call per record on every worker
@@ -102,6 +112,9 @@ func c13Scenarios() []goxScenario {
 		goxScenario{Name: "variable-assignment-per-row", Files: map[string]string{"t.csv": big}, SQL: "VAR @v := 0; SELECT a, @v := @v + 1 FROM t;", CPU: 3},
 		goxScenario{Name: "cursor-and-table-in-user-function-per-row", Files: map[string]string{"t.csv": big},
 			SQL: "DECLARE f FUNCTION (@x) AS BEGIN DECLARE c CURSOR FOR SELECT @x + 1; OPEN c; VAR @y; FETCH c INTO @y; CLOSE c; DECLARE tt VIEW (n); INSERT INTO tt VALUES (@y); RETURN (SELECT n FROM tt); END; SELECT a, f(a) FROM t;", CPU: 3},
+		// a cursor of the enclosing scope fetched by a user function that runs once per record on every worker
+		goxScenario{Name: "outer-cursor-fetched-in-user-function-per-row", Files: map[string]string{"t.csv": big},
+			SQL: "DECLARE cur CURSOR FOR SELECT a FROM t; OPEN cur; DECLARE nxt FUNCTION (@x) AS BEGIN VAR @v; FETCH cur INTO @v; RETURN @v; END; SELECT COUNT(*) FROM (SELECT nxt(a) AS n FROM t) s WHERE n IS NOT NULL;", CPU: 3},
 		goxScenario{Name: "user-function-per-row", Files: map[string]string{"t.csv": big}, SQL: "DECLARE f FUNCTION (@x) AS BEGIN VAR @y := @x * 2; RETURN @y + 1; END; SELECT a, f(a) FROM t;", CPU: 3},
 	)
 	return sc
